@@ -683,7 +683,7 @@ namespace c15
         int quick, thorough;
     };
     // bytes typed after the configuration choice, by line capacity (index cap-2)
-    static const Depth RAW_DEPTH[4] = {{6, 8}, {6, 8}, {5, 7}, {5, 7}};    // terminal automaton
+    static const Depth RAW_DEPTH[4] = {{6, 8}, {6, 8}, {5, 7}, {5, 6}};    // terminal automaton
     static const Depth RL_RAW_DEPTH[3] = {{6, 8}, {5, 7}, {5, 6}};          // decoder alone (subsumed by the above)
     static const Depth KEY_DEPTH[4] = {{9, 12}, {9, 12}, {9, 12}, {9, 12}};
 
